@@ -15,6 +15,12 @@ from fractions import Fraction
 
 import z3
 
+try:
+    import sys as _sys
+    _sys.set_int_max_str_digits(0)      # z3 models of nonlinear obligations can contain rationals with thousands of digits
+except Exception:
+    pass
+
 
 class Control(BaseException):
     pass
